@@ -664,9 +664,29 @@ end Json
 namespace Json
 open Py Py.JsonStr
 
-/-! ### `toJson` commutes with reading a path; failures come from `str()` only -/
+/-! ### `toJson` commutes with reading a path; failures come from `str()` or from a key without a rule -/
 
-theorem toJsonMembers_find (d : Bool) (s : Nat → Except Err Str) (k : Str) :
+theorem coerceKey_key {o : Opts} {k : PyKey} {ks : Str} (h : coerceKey o k = .key ks) : k.text = some ks := by
+  cases k <;> simp only [coerceKey] at h
+  · cases h; rfl
+  · cases h; rfl
+  · split at h
+    · cases h; rfl
+    · cases h
+  · cases h; rfl
+  · cases h; rfl
+  · split at h <;> cases h
+
+theorem coerceKey_skip {o : Opts} {k : PyKey} (h : coerceKey o k = .skip) : k.text = none := by
+  cases k <;> simp only [coerceKey] at h
+  · cases h
+  · cases h
+  · split at h <;> cases h
+  · cases h
+  · cases h
+  · rfl
+
+theorem toJsonMembers_find (d : Opts) (s : Nat → Except Err Str) (k : Str) :
     ∀ (ms : PyMembers) (js : JMembers), toJsonMembers d s ms = .ok js →
       (∀ w, ms.find k = some w → ∃ jw, toJson d s w = .ok jw ∧ js.find k = some jw) ∧
       (ms.find k = none → js.find k = none) ∧ js.keys = ms.keys
@@ -680,37 +700,55 @@ theorem toJsonMembers_find (d : Bool) (s : Nat → Except Err Str) (k : Str) :
     simp only [toJsonMembers] at h
     split at h
     · cases h
-    · rename_i j hj
+    · rename_i hk
+      have ht := coerceKey_skip hk
+      have ih := toJsonMembers_find d s k t js h
+      refine ⟨?_, ?_, ?_⟩
+      · intro w hw
+        simp only [PyMembers.find, ht] at hw
+        exact ih.1 w (by simpa using hw)
+      · intro hn
+        simp only [PyMembers.find, ht] at hn
+        exact ih.2.1 (by simpa using hn)
+      · simp only [PyMembers.keys, ht]; exact ih.2.2
+    · rename_i ks hk
+      have ht := coerceKey_key hk
       split at h
       · cases h
-      · rename_i js' hjs
-        cases h
-        have ih := toJsonMembers_find d s k t js' hjs
-        refine ⟨?_, ?_, ?_⟩
-        · intro w hw
-          simp only [PyMembers.find] at hw
-          simp only [JMembers.find]
-          split at hw
-          · rename_i hk; cases hw; exact ⟨j, hj, by simp [hk]⟩
-          · rename_i hk
-            obtain ⟨jw, h1, h2⟩ := ih.1 w hw
-            exact ⟨jw, h1, by simp [hk, h2]⟩
-        · intro hn
-          simp only [PyMembers.find] at hn
-          simp only [JMembers.find]
-          split at hn
-          · cases hn
-          · rename_i hk; simp [hk, ih.2.1 hn]
-        · simp [JMembers.keys, PyMembers.keys, ih.2.2]
+      · rename_i j hj
+        split at h
+        · cases h
+        · rename_i js' hjs
+          cases h
+          have ih := toJsonMembers_find d s k t js' hjs
+          refine ⟨?_, ?_, ?_⟩
+          · intro w hw
+            simp only [PyMembers.find, ht, Option.some.injEq] at hw
+            simp only [JMembers.find]
+            split at hw
+            · rename_i hk; cases hw; exact ⟨j, hj, by simp [hk]⟩
+            · rename_i hk
+              obtain ⟨jw, h1, h2⟩ := ih.1 w hw
+              exact ⟨jw, h1, by simp [hk, h2]⟩
+          · intro hn
+            simp only [PyMembers.find, ht, Option.some.injEq] at hn
+            simp only [JMembers.find]
+            split at hn
+            · cases hn
+            · rename_i hk; simp [hk, ih.2.1 hn]
+          · simp [JMembers.keys, PyMembers.keys, ht, ih.2.2]
 
-theorem toJson_dict (d : Bool) (s : Nat → Except Err Str) (ms : PyMembers) (j : JVal)
+theorem sortOutcome_off {d : Opts} (hs : d.sortKeys = false) (ms : PyMembers) : sortOutcome d ms = none := by
+  simp [sortOutcome, hs]
+
+theorem toJson_dict (d : Opts) (s : Nat → Except Err Str) (hs : d.sortKeys = false) (ms : PyMembers) (j : JVal)
     (h : toJson d s (.dict ms) = .ok j) : ∃ js, j = .obj js ∧ toJsonMembers d s ms = .ok js := by
-  simp only [toJson] at h
+  simp only [toJson, sortOutcome_off hs] at h
   split at h
-  · rename_i js hjs; cases h; exact ⟨js, rfl, hjs⟩
+  · rename_i js hjs; cases h; exact ⟨js, by simp [hs], hjs⟩
   · cases h
 
-theorem toJson_get (d : Bool) (s : Nat → Except Err Str) :
+theorem toJson_get (d : Opts) (s : Nat → Except Err Str) (hs : d.sortKeys = false) :
     ∀ (p : List Str) (v w : PyVal) (j : JVal), toJson d s v = .ok j → v.get p = some w →
       ∃ jw, toJson d s w = .ok jw ∧ j.get p = some jw
   | [], v, w, j, h, hg => by
@@ -719,77 +757,200 @@ theorem toJson_get (d : Bool) (s : Nat → Except Err Str) :
   | k :: ks, v, w, j, h, hg => by
     cases v with
     | dict ms =>
-      obtain ⟨js, rfl, hjs⟩ := toJson_dict d s ms j h
+      obtain ⟨js, rfl, hjs⟩ := toJson_dict d s hs ms j h
       simp only [PyVal.get] at hg
       split at hg
       · rename_i x hx
         obtain ⟨jx, h1, h2⟩ := (toJsonMembers_find d s k ms js hjs).1 x hx
-        obtain ⟨jw, h3, h4⟩ := toJson_get d s ks x w jx h1 hg
+        obtain ⟨jw, h3, h4⟩ := toJson_get d s hs ks x w jx h1 hg
         exact ⟨jw, h3, by simp [JVal.get, h2, h4]⟩
       · cases hg
     | _ => simp [PyVal.get] at hg
 
-theorem toJson_keysAt (d : Bool) (s : Nat → Except Err Str) (p : List Str) (v : PyVal) (j : JVal)
-    (ms : PyMembers) (h : toJson d s v = .ok j) (hg : v.get p = some (.dict ms)) :
+theorem toJson_keysAt (d : Opts) (s : Nat → Except Err Str) (hs : d.sortKeys = false) (p : List Str) (v : PyVal)
+    (j : JVal) (ms : PyMembers) (h : toJson d s v = .ok j) (hg : v.get p = some (.dict ms)) :
     j.keysAt p = some ms.keys := by
-  obtain ⟨jw, h1, h2⟩ := toJson_get d s p v _ j h hg
-  obtain ⟨js, rfl, hjs⟩ := toJson_dict d s ms jw h1
+  obtain ⟨jw, h1, h2⟩ := toJson_get d s hs p v _ j h hg
+  obtain ⟨js, rfl, hjs⟩ := toJson_dict d s hs ms jw h1
   simp [JVal.keysAt, h2, (toJsonMembers_find d s [] ms js hjs).2.2]
 
+/-- the two ways `json.dumps(…, default=str)` can fail when `sort_keys` is off and `allow_nan` is on:
+`str()` of a reachable opaque object fails (with that error), or a reachable dict has a key json has no
+rule for (`TypeError`, whatever `default=` is) -/
+def FailCause (s : Nat → Except Err Str) (e : Err) (ops bad : List Nat) : Prop :=
+  (∃ x ∈ ops, s x = .error e) ∨ (e = .typeError ∧ ∃ x, x ∈ bad)
+
+theorem FailCause.mono {s : Nat → Except Err Str} {e : Err} {ops bad ops' bad' : List Nat}
+    (h : FailCause s e ops bad) (h1 : ∀ x ∈ ops, x ∈ ops') (h2 : ∀ x ∈ bad, x ∈ bad') :
+    FailCause s e ops' bad' := by
+  rcases h with ⟨x, hx, hs⟩ | ⟨he, x, hb⟩
+  · exact Or.inl ⟨x, h1 x hx, hs⟩
+  · exact Or.inr ⟨he, x, h2 x hb⟩
+
+theorem coerceKey_fail {d : Opts} (hn : d.allowNan = true) (hk : d.skipKeys = false) {k : PyKey} {e : Err}
+    (h : coerceKey d k = .fail e) : e = .typeError ∧ ∃ x, x ∈ k.bad := by
+  cases k with
+  | str _ => simp [coerceKey] at h
+  | int _ => simp [coerceKey] at h
+  | float _ => simp [coerceKey, hn] at h
+  | bool _ => simp [coerceKey] at h
+  | none => simp [coerceKey] at h
+  | other n =>
+    simp only [coerceKey, hk, Bool.false_eq_true, if_false] at h
+    cases h
+    exact ⟨rfl, n, by simp [PyKey.bad]⟩
+
 mutual
-theorem toJson_error (s : Nat → Except Err Str) (e : Err) :
-    ∀ v : PyVal, toJson true s v = .error e → ∃ o ∈ opaques v, s o = .error e
+theorem toJson_error (d : Opts) (hd : d.useDefault = true) (hs : d.sortKeys = false) (hk : d.skipKeys = false)
+    (hn : d.allowNan = true) (s : Nat → Except Err Str) (e : Err) :
+    ∀ v : PyVal, toJson d s v = .error e → FailCause s e (opaques v) (badKeys v)
   | .none, h => by simp [toJson] at h
   | .bool _, h => by simp [toJson] at h
   | .int _, h => by simp [toJson] at h
-  | .float _, h => by simp [toJson] at h
+  | .float _, h => by simp [toJson, hn] at h
   | .str _, h => by simp [toJson] at h
   | .list xs, h => by
     simp only [toJson] at h
     split at h
     · cases h
     · rename_i e' he; cases h
-      simpa [opaques] using toJsonList_error s e xs he
+      simpa [opaques, badKeys] using toJsonList_error d hd hs hk hn s e xs he
   | .dict ms, h => by
-    simp only [toJson] at h
+    simp only [toJson, sortOutcome_off hs] at h
     split at h
     · cases h
     · rename_i e' he; cases h
-      simpa [opaques] using toJsonMembers_error s e ms he
+      simpa [opaques, badKeys] using toJsonMembers_error d hd hs hk hn s e ms he
   | .opaque o, h => by
-    simp only [toJson, if_true] at h
+    simp only [toJson, hd, if_true] at h
     split at h
     · cases h
     · rename_i e' he; cases h
-      exact ⟨o, by simp [opaques], he⟩
-theorem toJsonList_error (s : Nat → Except Err Str) (e : Err) :
-    ∀ xs : PyList, toJsonList true s xs = .error e → ∃ o ∈ opaquesList xs, s o = .error e
+      exact Or.inl ⟨o, by simp [opaques], he⟩
+theorem toJsonList_error (d : Opts) (hd : d.useDefault = true) (hs : d.sortKeys = false) (hk : d.skipKeys = false)
+    (hn : d.allowNan = true) (s : Nat → Except Err Str) (e : Err) :
+    ∀ xs : PyList, toJsonList d s xs = .error e → FailCause s e (opaquesList xs) (badKeysList xs)
   | .nil, h => by simp [toJsonList] at h
   | .cons v t, h => by
     simp only [toJsonList] at h
     split at h
     · rename_i e' he; cases h
-      obtain ⟨o, ho, hs⟩ := toJson_error s e v he
-      exact ⟨o, by simp [opaquesList, ho], hs⟩
+      exact (toJson_error d hd hs hk hn s e v he).mono
+        (fun x hx => by simp only [opaquesList, List.mem_append]; exact Or.inl hx)
+        (fun x hx => by simp only [badKeysList, List.mem_append]; exact Or.inl hx)
     · split at h
       · rename_i e' he; cases h
-        obtain ⟨o, ho, hs⟩ := toJsonList_error s e t he
-        exact ⟨o, by simp [opaquesList, ho], hs⟩
+        exact (toJsonList_error d hd hs hk hn s e t he).mono
+          (fun x hx => by simp only [opaquesList, List.mem_append]; exact Or.inr hx)
+          (fun x hx => by simp only [badKeysList, List.mem_append]; exact Or.inr hx)
       · cases h
-theorem toJsonMembers_error (s : Nat → Except Err Str) (e : Err) :
-    ∀ ms : PyMembers, toJsonMembers true s ms = .error e → ∃ o ∈ opaquesMembers ms, s o = .error e
+theorem toJsonMembers_error (d : Opts) (hd : d.useDefault = true) (hs : d.sortKeys = false) (hk : d.skipKeys = false)
+    (hn : d.allowNan = true) (s : Nat → Except Err Str) (e : Err) :
+    ∀ ms : PyMembers, toJsonMembers d s ms = .error e → FailCause s e (opaquesMembers ms) (badKeysMembers ms)
   | .nil, h => by simp [toJsonMembers] at h
   | .cons k v t, h => by
     simp only [toJsonMembers] at h
     split at h
-    · rename_i e' he; cases h
-      obtain ⟨o, ho, hs⟩ := toJson_error s e v he
-      exact ⟨o, by simp [opaquesMembers, ho], hs⟩
+    · rename_i e' hc; cases h
+      obtain ⟨h1, x, h2⟩ := coerceKey_fail hn hk hc
+      exact Or.inr ⟨h1, x, by simp only [badKeysMembers, List.mem_append]; exact Or.inl h2⟩
+    · exact (toJsonMembers_error d hd hs hk hn s e t h).mono
+        (fun x hx => by simp only [opaquesMembers, List.mem_append]; exact Or.inr hx)
+        (fun x hx => by simp only [badKeysMembers, List.mem_append]; exact Or.inr (Or.inr hx))
     · split at h
       · rename_i e' he; cases h
-        obtain ⟨o, ho, hs⟩ := toJsonMembers_error s e t he
-        exact ⟨o, by simp [opaquesMembers, ho], hs⟩
-      · cases h
+        exact (toJson_error d hd hs hk hn s e v he).mono
+          (fun x hx => by simp only [opaquesMembers, List.mem_append]; exact Or.inl hx)
+          (fun x hx => by simp only [badKeysMembers, List.mem_append]; exact Or.inr (Or.inl hx))
+      · split at h
+        · rename_i e' he; cases h
+          exact (toJsonMembers_error d hd hs hk hn s e t he).mono
+            (fun x hx => by simp only [opaquesMembers, List.mem_append]; exact Or.inr hx)
+            (fun x hx => by simp only [badKeysMembers, List.mem_append]; exact Or.inr (Or.inr hx))
+        · cases h
 end
+
+/-! a key json has no rule for, anywhere in the value, makes the whole call fail (`skipkeys` off) -/
+mutual
+theorem toJson_badKey (d : Opts) (hk : d.skipKeys = false) (s : Nat → Except Err Str) :
+    ∀ v : PyVal, (∃ x, x ∈ badKeys v) → ∃ e, toJson d s v = .error e
+  | .none, h => by simp [badKeys] at h
+  | .bool _, h => by simp [badKeys] at h
+  | .int _, h => by simp [badKeys] at h
+  | .float _, h => by simp [badKeys] at h
+  | .str _, h => by simp [badKeys] at h
+  | .opaque _, h => by simp [badKeys] at h
+  | .list xs, h => by
+    obtain ⟨e, he⟩ := toJsonList_badKey d hk s xs (by simpa [badKeys] using h)
+    exact ⟨e, by simp [toJson, he]⟩
+  | .dict ms, h => by
+    obtain ⟨e, he⟩ := toJsonMembers_badKey d hk s ms (by simpa [badKeys] using h)
+    simp only [toJson]
+    cases sortOutcome d ms with
+    | some e' => exact ⟨e', rfl⟩
+    | none => exact ⟨e, by simp [he]⟩
+theorem toJsonList_badKey (d : Opts) (hk : d.skipKeys = false) (s : Nat → Except Err Str) :
+    ∀ xs : PyList, (∃ x, x ∈ badKeysList xs) → ∃ e, toJsonList d s xs = .error e
+  | .nil, h => by simp [badKeysList] at h
+  | .cons v t, h => by
+    obtain ⟨x, hx⟩ := h
+    simp only [badKeysList, List.mem_append] at hx
+    simp only [toJsonList]
+    cases hv : toJson d s v with
+    | error e => exact ⟨e, rfl⟩
+    | ok j =>
+      rcases hx with hx | hx
+      · obtain ⟨e, he⟩ := toJson_badKey d hk s v ⟨x, hx⟩
+        rw [hv] at he; cases he
+      · obtain ⟨e, he⟩ := toJsonList_badKey d hk s t ⟨x, hx⟩
+        exact ⟨e, by simp [he]⟩
+theorem toJsonMembers_badKey (d : Opts) (hk : d.skipKeys = false) (s : Nat → Except Err Str) :
+    ∀ ms : PyMembers, (∃ x, x ∈ badKeysMembers ms) → ∃ e, toJsonMembers d s ms = .error e
+  | .nil, h => by simp [badKeysMembers] at h
+  | .cons k v t, h => by
+    obtain ⟨x, hx⟩ := h
+    simp only [badKeysMembers, List.mem_append] at hx
+    simp only [toJsonMembers]
+    cases hc : coerceKey d k with
+    | fail e => exact ⟨e, rfl⟩
+    | skip =>
+      cases k <;> simp [coerceKey, hk] at hc
+      split at hc <;> cases hc
+    | key ks =>
+      have hb : k.bad = [] := by
+        cases k <;> first | rfl | (simp [coerceKey, hk] at hc)
+      rw [hb] at hx
+      simp only [List.not_mem_nil, false_or] at hx
+      cases hv : toJson d s v with
+      | error e => exact ⟨e, rfl⟩
+      | ok j =>
+        rcases hx with hx | hx
+        · obtain ⟨e, he⟩ := toJson_badKey d hk s v ⟨x, hx⟩
+          rw [hv] at he; cases he
+        · obtain ⟨e, he⟩ := toJsonMembers_badKey d hk s t ⟨x, hx⟩
+          exact ⟨e, by simp [he]⟩
+end
+
+/-- with `skipkeys` off no member is dropped: the JSON object has one member per dictionary item, its
+keys are the coerced keys in insertion order -/
+theorem toJsonMembers_keys (d : Opts) (hk : d.skipKeys = false) (s : Nat → Except Err Str) :
+    ∀ (ms : PyMembers) (js : JMembers), toJsonMembers d s ms = .ok js →
+      js.keys.map some = ms.keyList.map PyKey.text
+  | .nil, js, h => by simp only [toJsonMembers] at h; cases h; rfl
+  | .cons k v t, js, h => by
+    simp only [toJsonMembers] at h
+    split at h
+    · cases h
+    · rename_i hc
+      cases k <;> simp [coerceKey, hk] at hc
+      split at hc <;> cases hc
+    · rename_i ks hc
+      split at h
+      · cases h
+      · split at h
+        · cases h
+        · rename_i js' hjs
+          cases h
+          simp [JMembers.keys, PyMembers.keyList, coerceKey_key hc, toJsonMembers_keys d hk s t js' hjs]
 
 end Json
